@@ -9,7 +9,7 @@ import itertools
 PROPERTY = "C11"
 LEVEL = "exploration"
 SHARDS = {"quick": 4, "thorough": 16}
-REQUIRED = ["ws-automaton", "call-model", "frame-accounting", "state-monotone", "denial-response", "overlapped-pairs", "websocket_session", "cancelled-receive", "iterator-early-exit", "server-send-fails"]
+REQUIRED = ["ws-automaton", "call-model", "frame-accounting", "state-monotone", "denial-response", "overlapped-pairs", "websocket_session", "cancelled-receive", "iterator-early-exit", "server-send-fails", "large-frames"]
 RULE = ("Exhaustive call sequences over 15 wrapper operations (accept, accept(subprotocol), receive, receive_text, receive_bytes, one step of "
         "iter_text / iter_bytes, send_text, send_bytes, close, close(code), raw send of accept / send / close / foreign type) of length <=4 "
         "(thorough <=5) x every server script (connect; 0-3 frames text/bytes/both-keys; disconnect at every position or never), plus "
@@ -736,6 +736,15 @@ def run(ctx):
                         session(ctx, calls, raises, events)
                         ctx.case_enum(n >= 2)
         ctx.sample("websocket_session", {"calls": ["accept", "close", "send_text"], "view_raises": True})
+        # very large frames (around 16 MiB) are frames like any other
+        for key, calls in (("text", ("accept", "receive_text", "receive_text", "receive_text")), ("bytes", ("accept", "iter_bytes", "iter_bytes", "iter_bytes")),
+                           ("text", ("accept", "receive", "iter_text", "receive"))):
+            for size in (16 * 1024 * 1024, 16 * 1024 * 1024 + 1, 20_000_000):
+                big = "x" * size if key == "text" else b"x" * size
+                events = [{"type": "websocket.receive", key: big}, {"type": "websocket.receive", key: big[:5]}, {"type": "websocket.disconnect", "code": 1000}]
+                run_scenario(ctx, calls, f"large-frame-{size}", events)
+                ctx.mon("large-frames")
+                ctx.case_enum(True)
         for variant in ("receive", "receive_text", "receive_bytes"):
             for how in ("cancel", "timeout"):
                 for nframes in (0, 1, 3):
@@ -764,6 +773,7 @@ def run(ctx):
         ctx.mon("websocket_session", 0)
         ctx.mon("cancelled-receive", 0)
         ctx.mon("iterator-early-exit", 0)
+        ctx.mon("large-frames", 0)
 
 
 def replay(ctx, case):
@@ -784,6 +794,13 @@ def replay(ctx, case):
         return
     if "calls" not in case:
         denial(ctx, None)
+        return
+    if str(case.get("disconnect", "")).startswith("large-frame-"):
+        size = int(str(case["disconnect"]).split("-")[-1])
+        key = "bytes" if any("bytes" in c for c in case["calls"]) else "text"
+        big = "x" * size if key == "text" else b"x" * size
+        run_scenario(ctx, case["calls"], case["disconnect"], [{"type": "websocket.receive", key: big}, {"type": "websocket.receive", key: big[:5]}, {"type": "websocket.disconnect", "code": 1000}])
+        ctx.case(1)
         return
     for tag, events in SCRIPTS:
         sig = [e.get("type", "")[10:] + ("/" + ("text" if e.get("text") is not None else "bytes") if "receive" in e.get("type", "") else "") for e in events]
